@@ -232,7 +232,9 @@ func (expr *simpleExpression) Evaluate(ctx *ExecutionContext) (*Value, *Error) {
 	result := t1
 
 	if expr.negate {
-		result = result.Negate()
+		// (a logical negation is a boolean whatever it negates: Negate() answers
+		// numbers with the numbers 0, 1 and 1.1)
+		result = AsValue(!result.IsTrue())
 	}
 
 	if expr.negativeSign {
